@@ -26,6 +26,7 @@ instance : Scalar ℝ where
   ofRat n d := (n : ℝ) / (d : ℝ)
 
 theorem ofRatR (n d : Nat) : (Scalar.ofRat n d : ℝ) = (n : ℝ) / (d : ℝ) := rfl
+theorem sqrtR (x : ℝ) : (Scalar.sqrt x : ℝ) = Real.sqrt x := rfl
 theorem piR : (Scalar.pi : ℝ) = Real.pi := rfl
 
 theorem fmodR_def (x y : ℝ) : Scalar.fmod x y = x - y * Real.truncR (x / y) := rfl
